@@ -4,7 +4,7 @@
    (validated byte for byte against git 2.39.5 by the harness).  [wf_entry] = what git stores in an
    entry (ProofsEntry.v). *)
 From GixV.Base Require Import Bytes BytesFacts Outcome.
-From GixV.C24 Require Import Model Spec ProofsEntry.
+From GixV.C24 Require Import Model Spec ProofsEntry ProofsThreads ProofsV4.
 Local Open Scope N_scope.
 
 (* one version-2/3 entry as git writes it (any path length, also >= 0xfff where the length field
@@ -22,6 +22,57 @@ Proof. exact L_chunk_v23. Qed.
 Theorem entry_v23_never_panics : forall prev d, load_one false prev d <> Panic.
 Proof. exact L_load_one_v23_no_panic. Qed.
 
+(* git's variable-length integer (varint.c, used for the strip count of version-4 names) *)
+Theorem varint_roundtrip : forall v r, v < 9223372036854775808 -> var_int (encode_varint v ++ r) = Ok (v, r).
+Proof. exact L_varint_roundtrip. Qed.
+
+(* one version-4 entry: the name is the kept prefix of the previous name plus the stored suffix.
+   [prev] = what the decoder remembers (nothing at the start of an offset-table block: the strip
+   count git stores there, the whole previous name, is ignored). *)
+Theorem entry_v4_roundtrip : forall e prevname fresh prev r, wf_entry e -> r <> [] ->
+  N.of_nat (length prevname) < 9223372036854775808 ->
+  (prev = Some prevname \/ (prev = None /\ (fresh = true \/ prevname = []))) ->
+  load_one true prev (git_entry_v4 prevname fresh e ++ r) = Ok (e, r).
+Proof. exact L_load_one_v4. Qed.
+
+(* a run of version-4 entries (prefix compression against the previous entry) decodes to the same
+   entries, whether the run starts a file, continues one, or starts an offset-table block *)
+Theorem entries_v4_roundtrip : forall es fuel prevname fresh prev r acc, Forall wf_entry es -> (length es <= fuel)%nat ->
+  r <> [] -> N.of_nat (length prevname) < 9223372036854775808 ->
+  Forall (fun e => N.of_nat (length (e_path e)) < 9223372036854775808) es ->
+  (prev = Some prevname \/ (prev = None /\ (fresh = true \/ prevname = []))) ->
+  chunk fuel true (N.of_nat (length es)) prev (git_entries true prevname fresh es ++ r) acc = Ok (rev acc ++ es, r).
+Proof. exact L_chunk_v4. Qed.
+
+(* The threaded path (State::from_bytes with an offset table): if every table row names a block that
+   decodes to its entries, then for EVERY thread count the stitched result is the concatenation of the
+   blocks in table order (any version). *)
+Theorem chunked_decode_is_concatenation : forall v4 data table bl threads, 1 <= threads ->
+  Forall2 (row_ok v4 data) table bl -> sumc table < 4294967296 ->
+  decode_chunked v4 data table threads = Ok (concat bl).
+Proof. exact L_decode_chunked_ok. Qed.
+
+(* Version 2/3, git's layout: decoding through git's offset table with any number of threads and
+   decoding serially both give exactly the entries git stored ([pre] = the 12 header bytes in a real
+   file, [rest] = extensions and trailer). *)
+Theorem thread_limit_irrelevant_v23 : forall blocks pre rest threads,
+  Forall (Forall wf_entry) blocks -> N.of_nat (length (concat blocks)) < 4294967296 -> 1 <= threads ->
+  let bbs := map (git_entries false [] false) blocks in
+  let data := pre ++ concat bbs ++ rest in
+  let table := combine (block_offsets (N.of_nat (length pre)) bbs) (map (fun b => N.of_nat (length b)) blocks) in
+  decode_chunked false data table threads = Ok (concat blocks) /\
+  chunk_of false (N.of_nat (length (concat blocks))) (concat bbs ++ rest) = Ok (concat blocks, rest).
+Proof. exact L_thread_limit_irrelevant_v23. Qed.
+
+(* The full statement of the property at file level; NOT proved as one theorem (see NOTES.md): it is
+   tested on every generated case by the correspondence run and by prop(). *)
+Definition git_index_decodes_full_statement : Prop :=
+  forall sha v blocks ieot exts eoie threads, 1 <= threads -> (v = 2 \/ v = 3 \/ v = 4) ->
+  Forall (Forall wf_entry) blocks ->
+  exists x, from_bytes sha threads (git_write sha v blocks ieot exts eoie) =
+            Ok (mkState v (concat blocks) (any_sparse (concat blocks) || x_sparse x) x
+                        (Some (sha (git_body sha v blocks ieot exts eoie)))).
+
 (* non-vacuity *)
 Definition ex_entry (p : bytes) : entry :=
   mkEntry [1;2;3;4;5;6;33188;7;8;4294967295] (repeat xab 20) (4096 + 16384 + 1073741824) p.
@@ -37,3 +88,23 @@ Example ex_long_path :
   let e := ex_entry (repeat x61 4140) in
   load_one false None (git_entry_v23 e ++ bs "rest") = Ok (e, bs "rest").
 Proof. vm_compute. reflexivity. Qed.
+
+Example ex_v4_block :
+  let a := ex_entry (bs "dir/file-a") in
+  let b := ex_entry (bs "dir/file-b") in
+  chunk_of true 2 (git_entries true [] false [a; b] ++ bs "rest") = Ok ([a; b], bs "rest") /\
+  length (git_entries true [] false [a; b]) = (2 * 64 + 1 + 11 + 1 + 2)%nat.
+Proof. split; vm_compute; reflexivity. Qed.
+Example ex_threads :
+  let a := ex_entry (bs "a") in let b := ex_entry (bs "b") in let c := ex_entry (bs "c") in
+  let blocks := [[a]; [b]; [c]] in
+  let bbs := map (git_entries false [] false) blocks in
+  let data := repeat x00 12 ++ concat bbs ++ bs "rest" in
+  let table := combine (block_offsets 12 bbs) [1; 1; 1] in
+  Forall2 (row_ok false data) table blocks /\
+  decode_chunked false data table 1 = Ok [a; b; c] /\ decode_chunked false data table 2 = Ok [a; b; c] /\
+  decode_chunked false data table 7 = Ok [a; b; c].
+Proof.
+  cbv zeta. split; [|repeat split; vm_compute; reflexivity].
+  repeat constructor; cbn [fst snd]; try (vm_compute; reflexivity); eexists; vm_compute; reflexivity.
+Qed.
